@@ -20,6 +20,7 @@ UNITS = {
     "u20_chunkparse": {"verus": "specs/u20_chunkparse.vt.rs"},
     "u21_patchlog_tx": {"verus": "specs/u21_patchlog_tx.vt.rs"},
     "u32_decodable_alloc": {"verus": "specs/u32_decodable_alloc.vt.rs"},
+    "u33_delta_nth": {"verus": "specs/u33_delta_nth.vt.rs"},
     "u22_loadnext": {"verus": "specs/u22_loadnext.vt.rs"},
     "u23_exid_order": {"verus": "specs/u23_exid_order.vt.rs"},
     "u24_changeparse": {"verus": "specs/u24_changeparse.vt.rs"},
@@ -325,7 +326,7 @@ PROPERTIES.update({
     },
     "C35": {
         "level": "proof",
-        "verus": [("u06v_hexane_str", "*"), ("u29_hexane_prefix", "*"), ("u31_hexane_bool", "*")],
+        "verus": [("u06v_hexane_str", "*"), ("u29_hexane_prefix", "*"), ("u31_hexane_bool", "*"), ("u33_delta_nth", "*")],
         "kani": ["u06_codec_reads_agree", "u06_leb_unsigned_roundtrip", "u06_leb_signed_roundtrip", "u06_int_unpack_total", "u06_narrow_unpack_total", "u06_string_unpack_q", "u06_string_unpack_t",
                  "u06_string_unpack_huge_len", "u06_rle_segment_total_u64", "u06_rle_segment_total_i64", "u06_rle_segment_utf8"],
         "not_under_contract": ["Column::load / load_with / save / save_to", "slabs, B-tree index, splice, RLE loader (rle/load.rs), bool and delta encodings, encoder.rs", "value pack() into Vec"],
